@@ -65,7 +65,14 @@ const (
 	ScriptSeeded = 0 // GenScript(seed, nOps)
 	ScriptFixed  = 1 // FixedScripts[seed - FixedScriptSeed0], whatever the run's seed
 	ScriptLong   = 2 // a chain longer than one filter checkpoint interval first, then as GenScript
+	ScriptHuge   = 3 // a short seeded history, ONE append of several thousand block headers, the filter store brought up in one or two huge batches, a short seeded tail
 )
+
+// HugeSizes are the batch sizes the "huge" append class is drawn around: one
+// WriteHeaders call with several thousand headers, as the headers import makes
+// (its default write batch is 65536 headers); a P2P headers message never
+// exceeds 2000. Nothing in the runner or the oracle depends on the values.
+var HugeSizes = []int{2500, 4100, 5000, 9000, 13000}
 
 // FixedScriptSeed0 is the script seed of FixedScripts[0] (it only drives the
 // contents of the generated headers).
@@ -84,9 +91,15 @@ const FixedScriptSeed0 = int64(9_000_000_000_001)
 //	   tip 1203 with filter tip 0 (checkpointed fetch, then the rest), 300
 //	   (checkpointed fetch starting inside the stored part), 1100 and 1160
 //	   (nothing left for the checkpointed fetch), then 1207 with 1160.
+//	2: a short history (block tip 7, filter tip 4), then ONE append of 9000 block
+//	   headers and ONE filter-header batch of 9003 (both stores to 9007): every
+//	   durable step of a several-thousand-header WriteHeaders call is a crash
+//	   point (the flat-file write with its torn lengths, and every index
+//	   commit the call makes, however many those are).
 var FixedScripts = [][]Op{
 	{{"appB", 5, ""}, {"appF", 3, "cfbatch"}, {"appF", 2, "cfbatch"}, {"appB", 1, ""}, {"appF", 1, "cfbatch"}},
 	{{"appB", 1203, ""}, {"appF", 300, "cfbatch"}, {"appF", 800, "cfbatch"}, {"appF", 60, "cfbatch"}, {"appB", 4, ""}, {"appF", 47, "cfbatch"}},
+	{{"appB", 7, ""}, {"appF", 4, "cfbatch"}, {"appB", 9000, "huge"}, {"appF", 9003, "huge"}},
 }
 
 // ScriptFor returns the script of (kind, seed, nOps): a pure function of its
@@ -117,6 +130,39 @@ func ScriptFor(kind int, seed int64, nOps int) []Op {
 			pre = append(pre, Op{"appF", (1 + r.Intn(n/1000)) * 1000, "cfbatch"})
 		}
 		return genScript(r, nOps, pre)
+	case ScriptHuge:
+		// 0-3 seeded small ops, one huge block append (a size of HugeSizes plus
+		// a drawn remainder), the filter store brought up to (or near) the new
+		// tip in one huge batch / a small batch then a huge one / a huge batch
+		// that stops a drawn distance below the tip, then nOps seeded ops.
+		r := rand.New(rand.NewSource(seed))
+		pre := genScript(r, r.Intn(4), nil)
+		bt, ft := 0, 0
+		for _, op := range pre {
+			switch op.Kind {
+			case "appB":
+				bt += op.N
+			case "appF":
+				ft += op.N
+			case "rollB":
+				bt -= op.N
+			case "rollF":
+				ft -= op.N
+			}
+		}
+		n := HugeSizes[r.Intn(len(HugeSizes))] + r.Intn(97)
+		pre = append(pre, Op{"appB", n, "huge"})
+		bt += n
+		switch r.Intn(3) {
+		case 0:
+			pre = append(pre, Op{"appF", bt - ft, "huge"})
+		case 1:
+			k := 1 + r.Intn(40)
+			pre = append(pre, Op{"appF", k, "cfbatch"}, Op{"appF", bt - ft - k, "huge"})
+		default:
+			pre = append(pre, Op{"appF", bt - ft - r.Intn(1500), "huge"})
+		}
+		return genScript(r, nOps, pre)
 	default:
 		return GenScript(seed, nOps)
 	}
@@ -131,6 +177,10 @@ func genScript(r *rand.Rand, nOps int, pre []Op) []Op {
 			bt += op.N
 		case "appF":
 			ft += op.N
+		case "rollB":
+			bt -= op.N
+		case "rollF":
+			ft -= op.N
 		}
 	}
 	nOps += len(pre)
@@ -227,6 +277,8 @@ type Runner struct {
 	// (CreationPoints); a point is then announced BEFORE each index commit
 	// too, as the flat files are not wrapped yet.
 	creating bool
+	// Ordinal of the index commit within the store call in flight (names only).
+	commitOp, commitOpSeq, opCommits, opSeq int
 }
 
 func (r *Runner) point(name, class string) {
@@ -256,7 +308,20 @@ func (d *crashDB) Update(f func(tx walletdb.ReadWriteTx) error, reset func()) er
 	}
 	err := d.DB.Update(f, reset)
 	if d.r.curOp >= 0 {
-		d.r.point("index/commit/after", "index-commit/after")
+		// Every write transaction the store call makes is a crash point of its
+		// own: their number is whatever the call does (one today for every
+		// call, whatever the batch size), never assumed. The second and later
+		// ones of one call carry their ordinal in the point's name.
+		name := "index/commit/after"
+		if !d.r.creating {
+			if d.r.commitOp != d.r.curOp || d.r.commitOpSeq != d.r.opSeq {
+				d.r.commitOp, d.r.commitOpSeq, d.r.opCommits = d.r.curOp, d.r.opSeq, 0
+			}
+			if d.r.opCommits++; d.r.opCommits > 1 {
+				name = fmt.Sprintf("index/commit/after#%d", d.r.opCommits)
+			}
+		}
+		d.r.point(name, "index-commit/after")
 	}
 	return err
 }
@@ -410,6 +475,7 @@ func (r *Runner) Exec(i int, op Op) (before, after *Model, err error) {
 	before = r.Model.clone()
 	m := r.Model
 	r.curOp, r.curOpK = i, op
+	r.opSeq++
 	defer func() { r.curOp = -1 }()
 	switch op.Kind {
 	case "appB":
